@@ -100,15 +100,20 @@ CHECKS = {
         level='model_checking',
         technique='stateless DFS over every scripted log-target answer sequence of the real random-walk Metropolis kernel '
                   '(bitwise leaf oracle: a reference Metropolis replaying the same RandomState stream), plus exhaustive '
-                  'product enumeration of real-target configurations for Metropolis and NUTS',
+                  'product enumeration of real-target configurations for Metropolis and NUTS, plus stateless DFS over '
+                  'every sequence of NUTS coin flips (doubling directions, sub-tree acceptances) on the real nuts() with a '
+                  'leapfrog-trajectory leaf oracle',
         text='The log-target is an environment whose k-th answer (finite values, -inf, +inf, NaN) is a choice; the complete '
              'answer tree of every (dim, sigma, n_samples, warm-up, seed) configuration up to 4 steps (6 thorough) runs on '
              'the real kernel and chain and proposals must equal the reference bit for bit. On real targets with hard '
              'boundaries and NaN/+inf regions both samplers must return the requested count, be deterministic in the seed '
-             'independently of the global generator and never return a state with -inf/NaN target. Moments are a fixed '
-             'finite regression table, not exhaustive.',
+             'independently of the global generator and never return a state with -inf/NaN target. For NUTS the uniform '
+             'draws are the environment: complete trees of coin-flip sequences (one iteration, up to three doublings; '
+             'deviation-bounded beyond) on smooth targets, every iteration checked against the leapfrog trajectory through '
+             '(previous state, drawn momentum) and the slice. Moments are a fixed finite regression table, not exhaustive.',
         note='Trusted: numpy RandomState determinism; the reference Metropolis (four accepted legal draw orders); NUTS has '
-             'no algorithmic reference - only count, determinism and support are decided for it. Exact u == ratio ties '
+             'no reference chain - count, determinism, support and the trajectory / slice invariants every No-U-Turn '
+             'sampler satisfies are decided for it, not its U-turn rule or step-size adaptation. Exact u == ratio ties '
              'unjudged (none occurred). Size-1-array targets and empty requests excluded.',
         design_ref='4 C09'),
     'C10': dict(
